@@ -323,9 +323,23 @@ fn check_obs(c: &ObsCase, ctx: &Ctx) -> Outcome {
         }
     }
     let dir = ctx.case_dir();
-    let f = dir.join("o.fa");
-    cli::write_fasta_auto(&f, &recs, None);
-    let q = QualOpts { min_count: 1, min_qual: 0, qual_filter: QualFilter::NoFilter };
+    // a third of the cases present the observations as reads: every window is a read that occurs
+    // min-count times (rounds interleaved, so that the bases alternate), with the count filter on
+    let as_reads = c.obs.len() % 3 == 0;
+    let min_count: u16 = if as_reads { [1u16, 2, 3, 5][c.k / 2 % 4] } else { 1 };
+    let f = dir.join(if as_reads { "o.fastq" } else { "o.fa" });
+    if as_reads {
+        let mut reads: Vec<(Vec<u8>, Vec<u8>)> = Vec::new();
+        for _ in 0..min_count {
+            for w in &wins {
+                reads.push((w.clone(), vec![b'I'; w.len()]));
+            }
+        }
+        cli::write_fastq(&f, &reads);
+    } else {
+        cli::write_fasta_auto(&f, &recs, None);
+    }
+    let q = QualOpts { min_count, min_qual: 0, qual_filter: QualFilter::NoFilter };
     let path = cli::p(&f);
     let res = std::panic::catch_unwind(std::panic::AssertUnwindSafe(|| {
         let d = SkaDict::<u128>::new(c.k, 0, (&path, None), "s", c.rc, &q, None);
@@ -346,6 +360,8 @@ fn check_obs(c: &ObsCase, ctx: &Ctx) -> Outcome {
     }
     let mut classes = vec![];
     if mask.count_ones() >= 3 { classes.push("union>=3"); }
+    if as_reads { classes.push("as_fastq_reads_with_count_filter"); }
+    if as_reads && min_count >= 3 { classes.push("min_count>=3"); }
     if c.self_rc && c.rc { classes.push("self_rc"); }
     if c.obs.iter().any(|o| o.1) && c.rc { classes.push("both_strands"); }
     pass(c.obs.len() >= 2, key_of(&(c.k, c.rc, &wins)), classes)
@@ -479,7 +495,7 @@ fn stages(tier: Tier) -> Vec<Box<dyn Stage>> {
         ),
         gen_stage_show(
             "observations",
-            "generated: one split k-mer observed 1..7 times with arbitrary middle bases on either strand (25% self-reverse-complement arms), as separate records or N-joined; stored code must be the code of the union. Non-trivial: >=2 observations; distinct by (k, strand, windows)",
+            "generated: one split k-mer observed 1..7 times with arbitrary middle bases on either strand (25% self-reverse-complement arms), as separate records or N-joined, a third of the cases as FASTQ reads repeated min-count times (1, 2, 3 or 5) with the count filter on; stored code must be the code of the union. Non-trivial: >=2 observations; distinct by (k, strand, windows)",
             tier.pick(24_000, 400_000),
             500,
             obs_strategy,
